@@ -5,6 +5,7 @@
 //@target src/pc_reader_simple.rs
 //@check normalize_grid serves=C13 fn=Range::normalize note="BOUNDED: 14 ranges (degenerate, subnormal width, [0,1], [0,255], [-5,1000], [0,2^53], one-sided huge, f64::MIN..f64::MAX, -1e308..1e308, ...) x 41 sample values per range (below, at and above both ends, interior points): result in [0,1], never NaN, exactly 0 at/below the minimum, exactly 1 at/above the maximum of a non-degenerate range, non-decreasing in the value, and equal to (v-min)/(max-min) in f64 where that expression is exact"
 //@check channel_limits_wiring serves=C13,C05 fn=Range::{red,green,blue,intensity}_from_pointcloud,PointCloudReaderSimple::{new,pop_point} note="BOUNDED: one cloud with integer colour records and an intensity record, explicit limits that differ in EVERY channel (red 10..110, green 100..200, blue 0..50, intensity 1000..3000) and values inside them; the simple iterator must deliver (v - min_c) / (max_c - min_c) with the limits of the SAME channel; with normalisation switched off the stored values as f32"
+//@check stored_values_outside_the_range_are_clamped serves=C13 fn=PointCloudReaderSimple::{normalize_value,pop_point},Range::normalize note="BOUNDED: float intensity / colour attributes (the writer does not range-check floats) with declared ranges [0,1] (UNIT_F32), [0,255], [-1,1] and limits 0..1 on an f64 attribute; 9 stored values per range (far below, just below, at the minimum, inside, at the maximum, just above, 1e30, f32::MAX / 1e300); through the public simple iterator with normalisation on: every delivered component is finite, within [0,1], equals ((clamp(v)-min)/(max-min)) as f32, 0 at/below the minimum and 1 at/above the maximum"
 //@module
     use crate::{ColorLimits, E57Reader, E57Writer, IntensityLimits, Record, RecordDataType, RecordName, RecordValue};
     use std::io::Cursor;
@@ -100,5 +101,69 @@
             let c = p.color.clone().expect("colour present");
             assert_eq!((c.red, c.green, c.blue), (pts[i][0] as f32, pts[i][1] as f32, pts[i][2] as f32), "raw colour of point {i} with normalisation off");
             assert_eq!(p.intensity, Some(pts[i][3] as f32), "raw intensity of point {i} with normalisation off");
+        }
+    }
+
+    #[test]
+    fn stored_values_outside_the_range_are_clamped() {
+        // (declared range of the f32 attribute, explicit f64 limits for the second cloud)
+        let ranges: [(f32, f32); 3] = [(0.0, 1.0), (0.0, 255.0), (-1.0, 1.0)];
+        for (lo, hi) in ranges {
+            let w = hi - lo;
+            let vals: Vec<f32> = vec![lo - 1.0e30, lo - 0.25 * w, lo, lo + 0.25 * w, lo + 0.5 * w, hi, hi + 0.25 * w, 1.0e30, f32::MAX];
+            let proto = vec![
+                Record::CARTESIAN_X_F32, Record::CARTESIAN_Y_F32, Record::CARTESIAN_Z_F32,
+                Record { name: RecordName::Intensity, data_type: RecordDataType::Single { min: Some(lo), max: Some(hi) } },
+                Record { name: RecordName::ColorRed, data_type: RecordDataType::Single { min: Some(lo), max: Some(hi) } },
+                Record { name: RecordName::ColorGreen, data_type: RecordDataType::Single { min: Some(lo), max: Some(hi) } },
+                Record { name: RecordName::ColorBlue, data_type: RecordDataType::Single { min: Some(lo), max: Some(hi) } },
+            ];
+            let mut file = Cursor::new(Vec::new());
+            {
+                let mut wr = E57Writer::new(&mut file, "guid").unwrap();
+                let mut pcw = wr.add_pointcloud("pc", proto).unwrap();
+                for v in &vals {
+                    pcw.add_point(vec![RecordValue::Single(1.0), RecordValue::Single(2.0), RecordValue::Single(3.0),
+                                       RecordValue::Single(*v), RecordValue::Single(*v), RecordValue::Single(*v), RecordValue::Single(*v)]).unwrap();
+                }
+                pcw.finalize().unwrap();
+                wr.finalize().unwrap();
+            }
+            let mut r = E57Reader::new(Cursor::new(file.into_inner())).unwrap();
+            let pc = r.pointclouds()[0].clone();
+            for (i, p) in r.pointcloud_simple(&pc).unwrap().enumerate() {
+                let p = p.unwrap();
+                let v = vals[i] as f64;
+                let want = ((v.clamp(lo as f64, hi as f64) - lo as f64) / (hi as f64 - lo as f64)) as f32;
+                let c = p.color.clone().expect("colour present");
+                for (what, got) in [("intensity", p.intensity.expect("intensity present")), ("red", c.red), ("green", c.green), ("blue", c.blue)] {
+                    assert!(got.is_finite() && (0.0..=1.0).contains(&got), "range [{lo},{hi}], stored {v}: normalised {what} = {got} is not within [0,1]");
+                    assert!(got == want, "range [{lo},{hi}], stored {v}: normalised {what} = {got}, expected {want}");
+                }
+            }
+        }
+        // an f64 attribute with explicit limits 0..1 and values far outside
+        let vals: Vec<f64> = vec![-1.0e300, -0.25, 0.0, 0.25, 0.5, 1.0, 1.25, 1.0e30, 1.0e300];
+        let proto = vec![
+            Record::CARTESIAN_X_F32, Record::CARTESIAN_Y_F32, Record::CARTESIAN_Z_F32,
+            Record { name: RecordName::Intensity, data_type: RecordDataType::Double { min: None, max: None } },
+        ];
+        let mut file = Cursor::new(Vec::new());
+        {
+            let mut wr = E57Writer::new(&mut file, "guid").unwrap();
+            let mut pcw = wr.add_pointcloud("pc", proto).unwrap();
+            pcw.set_intensity_limits(Some(IntensityLimits { intensity_min: Some(RecordValue::Double(0.0)), intensity_max: Some(RecordValue::Double(1.0)) }));
+            for v in &vals {
+                pcw.add_point(vec![RecordValue::Single(1.0), RecordValue::Single(2.0), RecordValue::Single(3.0), RecordValue::Double(*v)]).unwrap();
+            }
+            pcw.finalize().unwrap();
+            wr.finalize().unwrap();
+        }
+        let mut r = E57Reader::new(Cursor::new(file.into_inner())).unwrap();
+        let pc = r.pointclouds()[0].clone();
+        for (i, p) in r.pointcloud_simple(&pc).unwrap().enumerate() {
+            let got = p.unwrap().intensity.expect("intensity present");
+            let want = vals[i].clamp(0.0, 1.0) as f32;
+            assert!(got.is_finite() && got == want, "f64 intensity with limits 0..1, stored {}: normalised = {got}, expected {want}", vals[i]);
         }
     }
